@@ -179,6 +179,23 @@ def c20_single_letters(seed):
                                       ctx['length']] == c)
                     if not ok:
                         fails.append({'txt': txt, 'accept': acc, 'msg': m})
+                if ln == 4 and n % 7 == 0:
+                    # the same text again: the caller owns the messages (the
+                    # shell shifts their offsets in place), a second check of
+                    # the same text must not hand out the same objects
+                    import copy as _copy
+                    first = ch.create_single_letter_matches(txt, cmd)
+                    snap = _copy.deepcopy(first)
+                    for m in first:
+                        m['offset'] += 1000
+                        m['context']['offset'] += 1000
+                    again = ch.create_single_letter_matches(txt, cmd)
+                    if again != snap or any(a is b for a in again
+                                            for b in first):
+                        fails.append({'txt': txt, 'accept': acc,
+                                      'why': 'second check of the same text '
+                                      'gives %r, the first gave %r' % (
+                                          again, snap)})
     return {'name': 'single-letter regex and context', 'bounded': True,
             'bound': 'all texts of length <= 5 over 6 characters x 3 accept '
                      'lists', 'evaluations': n, 'failures': fails[:5]}
